@@ -47,6 +47,9 @@ def child_main(path):
         for rnd in range(int(job.get('history', 0)), -1, -1):
             for k, v in job['items']:
                 a[dec(k)] = dec(v) if rnd == 0 else 'old%d' % rnd
+        if job.get('cleared'):
+            a['to-be-cleared'] = 0
+            a.clear()              # the archive exists and is empty because it was cleared
         return
     if job['job'] == 'final':
         a = archmon.public_open(b, root, False) if b['kind'] != 'file' else \
@@ -490,6 +493,7 @@ def gen_case(rng, prop='C14', free=False):
     history = rng.choice([0, 0, 1, 2])
     if wl == 'writer-opener' and kind == 'file' and rng.random() < 0.35:
         s0 = []          # an existing but still empty archive
+        cleared = rng.random() < 0.5
         for j in jobs[:1]:
             j['ops'] = [op if op[1] != 'k' else ['set', 'k', op[2]] for op in j['ops']]
     if free and kind == 'sql' and rng.random() < 0.12:
@@ -499,7 +503,7 @@ def gen_case(rng, prop='C14', free=False):
         jobs = [{'ops': [['idle', 400], ['set', 'other', val('o')], ['set', 'other2', val('o')]]},
                 {'ops': [['in', 'k'], ['idle', 6500]]}]
     return {'backend': b, 'workload': wl, 's0': s0, 'jobs': jobs, 'policy': policy, 'free': free,
-            'history': history, 'seed': rng.randrange(1 << 30)}
+            'history': history, 'seed': rng.randrange(1 << 30), 'cleared': bool(locals().get('cleared'))}
 
 
 # =========================================================================================
@@ -686,7 +690,7 @@ def run_case(case, prop='C14'):
         jp = os.path.join(sc, 'build.json')
         with open(jp, 'w') as f:
             json.dump({'job': 'build', 'backend': b, 'root': root, 'items': case['s0'],
-                       'history': case.get('history', 0)}, f)
+                       'history': case.get('history', 0), 'cleared': bool(case.get('cleared'))}, f)
         subprocess.run([PY, '-m', 'kv.concmon', jp], env=child_env(), cwd=sc, timeout=60,
                        stdout=subprocess.PIPE, stderr=subprocess.STDOUT)
         jobs = [dict(j, job='client', backend=b, root=root) for j in case['jobs']]
